@@ -1,6 +1,6 @@
 (* History machine: a pool of aggregators and the operations a program applies to it. *)
 From Coq Require Import ZArith List String Bool.
-From Hgm Require Import NumOps Agg Ops Snap Json.
+From Hgm Require Import NumOps Agg Ops Snap Json Eq.
 Import ListNotations.
 Local Open Scope Z_scope.
 
@@ -21,6 +21,7 @@ Section Run.
   | OToJson (i : nat)          (* observe h.toJson() *)
   | OFromJson (j : json N)     (* Factory.fromJson(document): push the container or raise *)
   | OJsonRT (i : nat)          (* push Factory.fromJson(pool[i].toJson()) *)
+  | OEq (i j : nat) (tol : T)  (* a == b, b == a, and a == b at relative = absolute tolerance tol *)
   | OSnapAll.
 
   Definition dummy : agg := Leaf (LCount TId) no_quantity (leaf_zero (LCount TId)).
@@ -70,6 +71,10 @@ Section Run.
         | Ok c => (p ++ [c], 0 :: snap c)
         | Err => (p ++ [dummy], [1])
         end
+    | OEq i j tol =>
+        let b2z (b : bool) : Z := if b then 1 else 0 in
+        (p, [b2z (eqb numeq (get p i) (get p j)); b2z (eqb numeq (get p j) (get p i));
+             b2z (eqb (numeq_t tol tol) (get p i) (get p j))])
     | OSnapAll => (p, List.concat (map (fun a => 7777 :: snap a) p))
     end.
 
